@@ -73,3 +73,19 @@ def c05_comma_in_arbitrary(violation, m):
         if s.operator == "===" and "," in s.version:
             return True
     return False
+
+
+@matcher("c06_spec_filter_override_false")
+def c06_spec_filter_override_false(violation, m):
+    """Specifier.filter on a specifier whose stored override is an explicit False, called without argument:
+    the law holds for every other (override, argument) combination of the same input"""
+    inp = violation["input"]
+    if inp.get("how") != "spec":
+        return False
+    combos = inp.get("combos") or []
+    if [False, None] not in combos:
+        return False
+    from props.C06 import PROP
+    rest = dict(inp)
+    rest["combos"] = [c for c in combos if c != [False, None]]
+    return PROP.check_law("filter_contains", rest)[0]
